@@ -21,7 +21,12 @@ CONSTANTS MaxDefs, Enabled, Shard, NShards
 Kinds == {"function", "async", "method", "nested", "class"}
 \* "odd_defaults": default values whose TEXT is hostile to textual header rewriting (runs of spaces, a '#', brackets, a colon)
 \* "posonly": positional-only parameters, with defaults, before the `/`
-Sigs == {"plain", "defaults", "annotated", "varargs", "kwonly", "multiline", "multiline_comment", "decorated", "odd_defaults", "posonly"}
+\* "esc_backslash", "comment_apostrophe": headers that Python reads without trouble and the line scanner underneath the concrete-syntax layer
+\* does not (LineScan.tla's counterexamples: a string default ending in an escaped backslash `sep="\\"`; an apostrophe in a comment inside a
+\* multi-line header) -- the scanner does not find the end of the header, the chunk swallows the body
+Sigs == {"plain", "defaults", "annotated", "varargs", "kwonly", "multiline", "multiline_comment", "decorated", "odd_defaults", "posonly",
+         "esc_backslash", "comment_apostrophe"}
+Misscanned == {"esc_backslash", "comment_apostrophe"}
 \* "types_only": a ReST docstring that holds nothing but `:type` / `:rtype:` lines; "blank": `""" """` -- docstrings that re-emit as EMPTY
 \* under some configurations (then the docstring statement is deleted)
 Docs == {"none", "rest", "google", "numpydoc", "types_only", "blank"}
@@ -45,7 +50,9 @@ Transformed(d, cfg) == [d EXCEPT !.doc = IF d.doc = "none" /\ d.kind = "class" T
                                         ELSE IF d.doc \in {"types_only", "blank"} THEN "gone_or_" \o cfg.style ELSE cfg.style]
 \* a definition whose ONLY statement is a docstring that may re-emit as empty: the pipeline may give up at the replace step
 \* (as built it does, with an IndexError, before anything is written) -- allowed by the statement, the file stays as it was
-MayGiveUp(p) == \E k \in 1..Len(p) : (p[k].body = "doconly" /\ p[k].doc \in {"types_only", "blank"}) \/ p[k].doc = "blank"
+\* ... and a definition whose header the line scanner misreads: the re-parse of the over-long header chunk fails (IndentationError) AFTER the
+\* chunk list has been edited and before anything is written -- giving up there is what keeps the half-edited list off the disk
+MayGiveUp(p) == \E k \in 1..Len(p) : (p[k].body = "doconly" /\ p[k].doc \in {"types_only", "blank"}) \/ p[k].doc = "blank" \/ p[k].sig \in Misscanned
 Erase(d) == [kind |-> d.kind, sig |-> d.sig, body |-> d.body]           \* docstrings and annotations erased
 
 on(x) == x \in Enabled
